@@ -5,8 +5,12 @@ Proof: coq/Conc/{Model,Proofs}.v + Properties/C20.v: an interleaving small-step 
 once-initialisers, frozen reads) with theorems for ALL schedules.  Coq cannot speak about the Rust memory model or the
 OS scheduler, so the property itself on the real code is only *searched*: the `threads` harness (child processes,
 arena poisoning on) runs generated workloads on 2..16 threads sharing frozen modules and compares every thread's
-transcript with the same workload run alone on one thread.  The heap-level history of a sample of rounds is replayed
-on the Coq model (Conc/Cases.v): every step enabled, quiescent at the end, every read live."""
+transcript with the same workload run alone on one thread.  Two further families: per-thread-state rounds (deep nested
+comparison, repr/json cycle guards, recursion, interning, type ids on shared frozen values; the sequential run is taken
+before AND after the concurrent phase) and churn rounds (producers build hundreds of thousands of tiny frozen heaps back
+to back - consecutive heaps share a reference-counted chunk - consumers on other threads check and drop them: the
+protocol of C20_rc_inv at a high rate).  The heap-level history of a sample of rounds is replayed on the Coq model
+(Conc/Cases.v): every step enabled, quiescent at the end, every read live."""
 import json
 import os
 import random
@@ -245,6 +249,192 @@ def gen_round(rng, rid, nthreads, nops, first_use=False, p_send=0.6):
             "_kinds": kinds, "_gen": stats}
 
 
+# ---------------------------------------------------------------------------------------------------------------
+# "state" rounds: every piece of per-thread / process-wide state the library keeps while it evaluates, used by all threads
+# at the same time on the SAME shared frozen values: the recursion-depth guard of equals/compare (values/stack_guard.rs),
+# the cycle guards of repr/str/json (values/recursive_repr_or_json_guard.rs), the Starlark call stack, string hashing and
+# interning, type-instance ids of record/enum types, the chunk cache.  Depths stay below the single-thread limits
+# (200 comparison levels in this build, 50 call frames), so alone every operation succeeds.
+
+STATE_LIB = '''
+def z_nl(n, leaf):
+    x = [leaf]
+    for _ in range(n):
+        x = [x]
+    return x
+def z_nt(n, leaf):
+    x = (leaf,)
+    for i in range(n):
+        x = (x, i)
+    return x
+def z_nd(n, leaf):
+    x = {"k": leaf}
+    for _ in range(n):
+        x = {"k": x}
+    return x
+def z_nm(n, leaf):
+    x = [leaf]
+    for i in range(n):
+        x = [x, i] if i %% 3 == 0 else ((i, x) if i %% 3 == 1 else {"m": x, "i": i})
+    return x
+z_D = %(D)d
+z_la = z_nl(z_D, 1)
+z_lb = z_nl(z_D, 1)
+z_lc = z_nl(z_D, 2)
+z_ta = z_nt(z_D, 1)
+z_tb = z_nt(z_D, 1)
+z_tc = z_nt(z_D, 2)
+z_da = z_nd(z_D, 1)
+z_db = z_nd(z_D, 1)
+z_dc = z_nd(z_D, 2)
+z_ma = z_nm(z_D, "%(S)s")
+z_mb = z_nm(z_D, "%(S)s")
+z_mc = z_nm(z_D, "%(S)s!")
+z_cl = [1]
+z_cl.append(z_cl)
+z_cl2 = [1]
+z_cl2.append(z_cl2)
+z_cd = {"a": %(A)d}
+z_cd["self"] = z_cd
+def z_rec(n):
+    return 0 if n <= 0 else 1 + z_rec(n - 1)
+def z_even(n):
+    return True if n == 0 else z_odd(n - 1)
+def z_odd(n):
+    return False if n == 0 else z_even(n - 1)
+def z_eq():
+    return z_la == z_lb
+def z_walk(x, n):
+    return n if type(x) != "list" or n > 40 else z_walk(x[0], n + 1)
+z_Rec = record(a=int, b=str)
+z_En = enum("x", "y", "z")
+z_r = z_Rec(a=%(A)d, b="b%(A)d")
+z_strs = ["s%%d_%(S)s" %% i for i in range(40)]
+z_st = struct(a=1, b="two", deep=z_la, strs=z_strs)
+'''
+STATE_NAMES = ["z_nl", "z_nt", "z_nd", "z_nm", "z_D", "z_la", "z_lb", "z_lc", "z_ta", "z_tb", "z_tc", "z_da", "z_db", "z_dc", "z_ma", "z_mb",
+               "z_mc", "z_cl", "z_cl2", "z_cd", "z_rec", "z_even", "z_odd", "z_eq", "z_walk", "z_Rec", "z_En", "z_r", "z_strs", "z_st"]
+
+# snippets: `Z_` = the import prefix, `@` = a suffix that makes the snippet's own names unique inside one op, %(N)d a loop count,
+# %(P)d a small parameter.  A snippet of STATE_LAST ends in an error (also when run alone) and closes its op.
+STATE_SNIPPETS = {
+    "compare": [
+        "r@ = [Z_la == Z_lb for _ in range(%(N)d)]\nemit([all(r@), len(r@)])\n"
+        "emit([Z_la == Z_lc, Z_la != Z_lc, [Z_la] == [Z_lb], {\"k\": Z_la} == {\"k\": Z_lb}, (Z_la, 1) < (Z_lb, 2)])",
+        "r@ = [[Z_ta == Z_tb, Z_ta < Z_tc, Z_tc > Z_tb, Z_ta <= Z_tb, Z_la < Z_lc] for _ in range(%(N)d // 3 + 1)]\nemit([r@[0], r@[-1], len(r@)])",
+        "emit(len(sorted([Z_lc, Z_la, Z_lb, Z_lc, Z_la] * (%(N)d // 10 + 1))))\nemit(sorted([Z_lc, Z_la])[0] == Z_la)\n"
+        "emit([max(Z_la, Z_lc) == Z_lc, min([Z_tc, Z_ta]) == Z_tb])",
+        "r@ = [[Z_lc in [Z_la, Z_lb, Z_lc], Z_la in [Z_lc] * 5, [Z_la, Z_lb, Z_lc].index(Z_lc), Z_lb not in [Z_lc, Z_lc]] "
+        "for _ in range(%(N)d // 6 + 1)]\nemit(r@[-1])",
+        "d@ = {Z_ta: 1, Z_tc: 2}\nemit([d@[Z_tb] for _ in range(%(N)d)][-1])\nemit([Z_tb in d@, {Z_tb: 3}.get(Z_ta), {Z_tc: 3}.get(Z_ta)])",
+        "x@ = Z_nl(Z_D, 1)\ny@ = Z_nd(Z_D, 1)\nr@ = [[x@ == Z_la, x@ == Z_lc, y@ == Z_da, Z_da == Z_db, Z_da == Z_dc, Z_ma == Z_mb, Z_ma == Z_mc] "
+        "for _ in range(%(N)d // 8 + 1)]\nemit(r@[-1])",
+        "emit(len([1 for _ in range(%(N)d) if Z_eq()]))",
+        "emit(sorted([Z_nt(Z_D, i %% 3) for i in range(%(P)d %% 7 + 2)]) == "
+        "sorted([Z_nt(Z_D, i %% 3) for i in range(%(P)d %% 7 + 2)], reverse = True)[::-1])",
+    ],
+    "repr": [
+        "s@ = [len(repr(Z_ma)) + len(str(Z_da)) for _ in range(%(N)d // 8 + 1)]\nemit([s@[0], s@[-1]])\nemit([len(repr(Z_la)), len(json.encode(Z_ma))])",
+        "emit(repr(Z_cl))\nemit(str(Z_cd))\nemit(\"%%s|%%r\" %% (Z_cl, Z_cd))\nemit([repr(Z_cl) + str(Z_cd) for _ in range(%(N)d)][-1])",
+        "emit(json.encode(Z_la)[:50])\nemit(json.encode(Z_da)[-50:])\nemit([len(json.encode(Z_ma)) for _ in range(%(N)d // 8 + 1)][-1])",
+        "emit(repr(Z_st)[:80])\nemit(len(str(Z_st)))\nemit(repr(Z_r) + repr(Z_Rec) + str(Z_En))",
+        "l@ = [Z_la]\nl@.append(l@)\nemit(len(repr(l@)))\nd@ = {\"x\": l@}\nd@[\"d\"] = d@\nemit(len(str(d@)))\nemit(repr(Z_cl2) == repr(Z_cl))",
+    ],
+    "recursion": [
+        "emit([Z_rec(%(P)d %% 16 + 30) for _ in range(%(N)d // 4 + 1)][-1])",
+        "def g@(n):\n    return [] if n == 0 else [g@(n - 1)]\nemit(len(repr(g@(40))))\nemit([g@(30) == g@(30) for _ in range(%(N)d // 10 + 1)][-1])",
+        "emit([[Z_even(40), Z_odd(41)] for _ in range(%(N)d // 4 + 1)][-1])",
+        "emit(Z_walk(Z_la, 0))\nemit(Z_walk(Z_nl(30, 1), 0))",
+    ],
+    "strings": [
+        "d@ = {(\"k%%d\" %% i): i for i in range(300)}\nemit(len(d@))\nemit(d@[\"k7\"] + d@[\"k299\"])\nemit(sorted(d@.keys())[:3])",
+        "emit([hash(s) for s in Z_strs][:5])\nemit({s: len(s) for s in Z_strs}[Z_strs[%(P)d %% 40]])\n"
+        "emit(len({s: 1 for s in Z_strs + [s + \"\" for s in Z_strs]}))",
+        "emit([getattr(Z_st, n) for n in [\"a\", \"b\"]])\nemit(dir(Z_st))\nemit(hasattr(Z_st, \"deep\"))\nemit(\"\".join([s[0] for s in Z_strs]))",
+        "emit(struct(**{(\"f%%d\" %% i): i for i in range(30)}).f7)\nemit(\" \".join(Z_strs).split(\" \")[%(P)d %% 40])",
+    ],
+    "types": [
+        "R@ = record(a=int, b=str)\nQ@ = record(a=int, b=str)\nr@ = R@(a=%(P)d, b=\"x\")\n"
+        "emit([isinstance(r@, R@), isinstance(r@, Q@), isinstance(Z_r, Z_Rec), isinstance(Z_r, R@), isinstance(r@, Z_Rec)])\n"
+        "def f@(v: R@) -> int:\n    return v.a\nemit(f@(r@))",
+        "E@ = enum(\"x\", \"y\", \"z\")\nF@ = enum(\"x\", \"y\", \"z\")\n"
+        "emit([isinstance(E@(\"x\"), E@), isinstance(Z_En(\"x\"), E@), isinstance(F@(\"y\"), E@), E@(\"x\") == Z_En(\"x\"), E@(\"x\") == E@(\"x\")])\n"
+        "emit([e.value for e in E@] + [E@(\"z\").index])",
+        "def t@(v: Z_Rec, e: Z_En = Z_En(\"y\")) -> str:\n    return v.b + e.value\nemit([t@(Z_r) for _ in range(%(N)d // 4 + 1)][-1])",
+    ],
+}
+STATE_LAST = {
+    "compare": ["emit(Z_cl == Z_cl)\nemit(Z_cl == Z_cl2)"],
+    "repr": ["emit(json.encode(Z_cl))"],
+    "recursion": ["emit(Z_rec(80))"],
+    "strings": [],
+    "types": ["W@ = record(a=int, b=str)\ndef h@(v: W@) -> int:\n    return v.a\nemit(h@(Z_r))"],
+}
+STATE_HANDLES = ["z_la", "z_tc", "z_da", "z_ma", "z_cl", "z_cd", "z_rec", "z_st", "z_r", "z_strs"]
+
+
+def gen_state_round(rng, rid, nthreads, nops):
+    """A round whose workloads use the per-thread state of the library on shared frozen values (see above)."""
+    D = rng.randint(50, 150)
+    lib = STATE_LIB % {"D": D, "A": rng.randint(1, 999), "S": "".join(rng.choice("abcxyz") for _ in range(rng.randint(1, 8)))}
+    cats = sorted(STATE_SNIPPETS)
+    focus = rng.choice([None, None, None] + cats)       # some rounds mix everything, the others stress one kind of state
+    prefix = "S_"
+    load = 'load("lib0.star", %s)\n' % ", ".join('%s%s="%s"' % (prefix, n, n) for n in STATE_NAMES)
+    kinds = {}
+    threads = []
+    for t in range(nthreads):
+        ops = []
+        for _ in range(nops):
+            if rng.random() < 0.1:
+                ops.append({"op": "handle", "mod": "lib0.star", "sym": rng.choice(STATE_HANDLES), "send": rng.random() < 0.6})
+                kinds["state:handle"] = kinds.get("state:handle", 0) + 1
+                continue
+            parts = []
+            for j in range(rng.randint(1, 4)):
+                cat = focus if focus and rng.random() < 0.8 else rng.choice(cats)
+                last = j > 0 and STATE_LAST[cat] and rng.random() < 0.12
+                sn = rng.choice(STATE_LAST[cat] if last else STATE_SNIPPETS[cat])
+                sn = sn % {"N": rng.choice([8, 30, 60, 120]), "P": rng.randint(0, 500)}
+                parts.append(sn.replace("@", str(j)))
+                kinds["state:" + cat] = kinds.get("state:" + cat, 0) + 1
+                if last:
+                    break
+            src = load + "\n".join(parts) + "\n"
+            ops.append({"op": "eval", "src": re.sub(r"\bZ_", prefix + "z_", src), "gc": rng.choice([0, 0, 0, 0, 7])})
+        threads.append({"ops": ops})
+    return {"id": rid, "seed": rng.getrandbits(48) | 1, "libs": [{"name": "lib0.star", "src": lib}], "threads": threads,
+            "seq_first": True, "recheck": True, "share_globals": rng.random() < 0.6, "stack_mb": 16,
+            "jitter_us": rng.choice([1, 5, 20, 100]), "first_use": False, "family": "state", "depth": D, "focus": focus or "mixed",
+            "_kinds": kinds, "_gen": {}}
+
+
+# ---------------------------------------------------------------------------------------------------------------
+# "churn" rounds (harness: run_churn): producers build tiny frozen heaps / modules back to back, consumers on other threads check
+# the value against the expected encoding and drop the heap there.
+
+CHURN_STYLES = {
+    "tiny-str": ["str"],
+    "tiny-mixed": ["str", "tuple", "list", "big", "nested"],
+    "sizes": ["str", "strs", "list", "nested", "str", "tuple"],
+    "modules": ["module", "owned", "str", "tuple"],
+    "all": ["str", "tuple", "list", "big", "nested", "strs", "module", "owned", "eval"],
+}
+
+
+CHURN_COST = {"tiny-str": 0.5, "tiny-mixed": 0.7, "sizes": 1.0, "modules": 1.0, "all": 2.0}    # relative cost of one heap
+
+
+def gen_churn(rng, rid, iters, max_ms):
+    """`iters` = heaps per producer for a style of cost 1 (cheaper styles get proportionally more)."""
+    style = rng.choice(sorted(CHURN_STYLES))
+    return {"id": rid, "kind": "churn", "seed": rng.getrandbits(48) | 1, "style": style, "shapes": CHURN_STYLES[style],
+            "producers": rng.choice([1, 2, 2, 3, 3, 4]), "consumers": rng.choice([1, 2, 3, 3, 4]),
+            "iters": int(iters / CHURN_COST[style]), "max_ms": max_ms, "big_first": rng.choice([0, 0, 3000, 60000, 300000, 300000]),
+            "chan_cap": rng.choice([1, 2, 2, 8, 64]), "hold": rng.choice([0, 0, 0, 1, 4, 32]), "ev_n": 12,
+            "route": rng.choice(["rr", "rr", "rand", "block"]), "limit_s": 120, "threads": []}
+
+
 def thread_count(rng, hi):
     return min(hi, rng.choice([2, 2, 3, 4, 4, 5, 6, 8, 8, 12, 16]))
 
@@ -300,20 +490,22 @@ def run_rounds(ctx, cases, one_per_process=False, timeout=600):
     return out, rcs
 
 
-def run_each_alone(ctx, cases, timeout=600):
+def run_each_alone(ctx, cases, timeout=600, workers=None):
     """Each case in its own fresh process (parallel).  Returns [(rc, result|None)]."""
     import concurrent.futures
+    workers = workers or sv.NPROC
 
     def one(i):
         rc, log, rs = sv.run_harness(ctx, "threads", [strip(cases[i])], "solo%d" % i, timeout)
         return rc, rs[0]
-    with concurrent.futures.ThreadPoolExecutor(max_workers=min(sv.NPROC, max(1, len(cases)))) as ex:
+    with concurrent.futures.ThreadPoolExecutor(max_workers=min(workers, max(1, len(cases)))) as ex:
         return list(ex.map(one, range(len(cases))))
 
 
 def verdict(case, r, rc):
     """None when the round is fine, else (key, what)."""
-    nthr = len(case["threads"])
+    churn = case.get("kind") == "churn"
+    nthr = case["producers"] + case["consumers"] if churn else len(case["threads"])
     if r is None:
         if rc in (0, 77):
             return None   # not run (an earlier round of the same process ended it), or skipped by the watchdog as too expensive
@@ -327,6 +519,15 @@ def verdict(case, r, rc):
         return ("panic:%s:%s" % (r.get("phase"), msg), "round %s: panic in the %s phase: %s" % (case["id"], r.get("phase"), str(r["panic"])[:300]))
     if "setup_error" in r:
         return None
+    if churn:
+        if r.get("seq_bad"):
+            return ("churn:sequential-differs", "round %s: a tiny frozen heap built, read and dropped on ONE thread does not read as "
+                    "specified: %s" % (case["id"], r["seq_bad"][0][:300]))
+        if not r.get("equal", False):
+            return ("churn:value-corrupted", "round %s (%d producers building tiny frozen heaps back to back, %d consumers reading and dropping "
+                    "them on other threads, %s heaps): %s value(s) differ from the expected encoding / lost: %s"
+                    % (case["id"], case["producers"], case["consumers"], r.get("ops"), r.get("nbad"), (r.get("bad") or ["?"])[0][:300]))
+        return None
     if r.get("xfail"):
         seqonly = all(x.startswith("(sequential)") for x in r["xfail"])
         return ("cross-thread-read-differs" + (":sequential" if seqonly else ""),
@@ -337,6 +538,13 @@ def verdict(case, r, rc):
         return ("transcript-differs:%s" % op.get("op"),
                 "round %s (%d threads): thread %s op %s (%s): concurrent transcript item %s = %s, sequential = %s"
                 % (case["id"], nthr, d.get("thread"), d.get("op"), op.get("op"), d.get("item"), d.get("concurrent"), d.get("sequential")))
+    if r.get("rediff"):
+        d = r["rediff"]
+        op = case["threads"][d.get("thread", 0)]["ops"][d.get("op", 0)]
+        return ("sequential-rerun-differs:%s" % op.get("op"),
+                "round %s (%d threads): workload %s op %s (%s) run ALONE again after the concurrent phase: transcript item %s = %s, before the "
+                "concurrent phase = %s (state left behind by the concurrent phase)"
+                % (case["id"], nthr, d.get("thread"), d.get("op"), op.get("op"), d.get("item"), d.get("after"), d.get("before")))
     return None
 
 
@@ -354,6 +562,9 @@ def rerun_rate(ctx, case, n=RERUNS):
 def minimise(ctx, case, budget=5):
     """Fewer threads / shorter workloads while the failure still shows in 20 reruns."""
     best = case
+    if case.get("kind") == "churn":
+        k0, _ = rerun_rate(ctx, best)
+        return best, k0
     k0, _ = rerun_rate(ctx, best)
     best_rate = k0
     if k0 == 0:
@@ -423,7 +634,7 @@ def model_replay(ctx, sample):
     return n, steps, bad
 
 
-def evaluate(ctx, cases, first_use_cases, coq_sample=24, do_minimise=True):
+def run_with_second_pass(ctx, cases):
     res, rcs = run_rounds(ctx, cases)
     # rounds that were not run because an earlier round ended their process (crash, watchdog): second pass
     again = [i for i in range(len(cases)) if res[i] is None and rcs[i] == 0]
@@ -431,12 +642,30 @@ def evaluate(ctx, cases, first_use_cases, coq_sample=24, do_minimise=True):
         res2, rcs2 = run_rounds(ctx, [cases[i] for i in again])
         for i, r2, c2 in zip(again, res2, rcs2):
             res[i], rcs[i] = r2, c2
-    ctx.log("ran %d rounds in %d child processes (%d re-run after their process ended early)" % (len(cases), min(sv.NPROC, max(1, len(cases))), len(again)))
+    return res, rcs, len(again)
+
+
+CHURN_WORKERS = 5     # churn rounds run a few at a time (each has up to 8 busy threads)
+
+
+def evaluate(ctx, cases, first_use_cases, coq_sample=24, do_minimise=True, state_cases=(), churn_cases=()):
+    state_cases, churn_cases = list(state_cases), list(churn_cases)
+    res, rcs, nagain = run_with_second_pass(ctx, cases)
+    ctx.log("ran %d rounds in %d child processes (%d re-run after their process ended early)" % (len(cases), min(sv.NPROC, max(1, len(cases))), nagain))
     fres, frcs = run_rounds(ctx, first_use_cases, one_per_process=True)
     ctx.log("ran %d first-use rounds, each in a fresh process" % len(first_use_cases))
-    allc = list(zip(cases, res, rcs)) + list(zip(first_use_cases, fres, frcs))
+    # the state rounds in processes of their own (state that stays corrupted must not be blamed on / hidden by other rounds)
+    sres, srcs, nagain = run_with_second_pass(ctx, state_cases)
+    ctx.log("ran %d per-thread-state rounds (deep comparison / repr / recursion / interning / type ids on shared frozen values; sequential "
+            "before and after) (%d re-run)" % (len(state_cases), nagain))
+    couts = run_each_alone(ctx, churn_cases, timeout=300, workers=CHURN_WORKERS)
+    ctx.log("ran %d churn rounds (tiny frozen heaps built back to back, read and dropped on other threads), each in a fresh process"
+            % len(churn_cases))
+    allc = (list(zip(cases, res, rcs)) + list(zip(first_use_cases, fres, frcs)) + list(zip(state_cases, sres, srcs))
+            + [(c, r, rc) for c, (rc, r) in zip(churn_cases, couts)])
     failures, st = [], {"rounds": 0, "skipped_setup": 0, "not_run": 0, "threads": {}, "ops": 0, "items": 0, "xdrops": 0,
-                        "first_use": 0, "nontrivial": 0, "events": 0, "kinds": {}}
+                        "first_use": 0, "nontrivial": 0, "events": 0, "kinds": {}, "state_rounds": 0, "state_ops": 0, "state_items": 0,
+                        "churn_rounds": 0, "churn_heaps": 0, "churn_styles": {}}
     seen = {}
     good = []
     for case, r, rc in allc:
@@ -455,7 +684,8 @@ def evaluate(ctx, cases, first_use_cases, coq_sample=24, do_minimise=True):
             st.setdefault("setup_errors", []).append(str(r["setup_error"])[:200])
             continue
         st["rounds"] += 1
-        n = len(case["threads"])
+        churn = case.get("kind") == "churn"
+        n = case["producers"] + case["consumers"] if churn else len(case["threads"])
         st["threads"][n] = st["threads"].get(n, 0) + 1
         for k, c in case.get("_kinds", {}).items():
             st["kinds"][k] = st["kinds"].get(k, 0) + c
@@ -466,7 +696,19 @@ def evaluate(ctx, cases, first_use_cases, coq_sample=24, do_minimise=True):
             st["items"] += r.get("items", 0)
             st["xdrops"] += r.get("xdrops", 0)
             st["events"] += len(r.get("events", []))
-            if n >= 4 and case["libs"] and r.get("xdrops", 0) >= 1:
+            if churn:
+                st["churn_rounds"] += 1
+                st["churn_heaps"] += r["ops"]
+                st["churn_styles"][case["style"]] = st["churn_styles"].get(case["style"], 0) + 1
+                if n >= 3 and r["ops"] >= 10000:
+                    st["nontrivial"] += 1
+            elif case.get("family") == "state":
+                st["state_rounds"] += 1
+                st["state_ops"] += r["ops"]
+                st["state_items"] += r.get("items", 0)
+                if n >= 4:
+                    st["nontrivial"] += 1
+            elif n >= 4 and case["libs"] and r.get("xdrops", 0) >= 1:
                 st["nontrivial"] += 1
             if v is None:
                 good.append((case, r))
@@ -493,13 +735,21 @@ def evaluate(ctx, cases, first_use_cases, coq_sample=24, do_minimise=True):
             k, _ = rerun_rate(ctx, case)
         f["replay"]["round"] = small
         f["replay"]["rerun_failures"] = "%d/%d" % (k, RERUNS)
-        f["what"] += " | non-deterministic replay: %d/%d reruns of the (minimised: %d threads, <= %d ops) round fail; %d round(s) with this key" % (
-            k, RERUNS, len(small["threads"]), max(len(t["ops"]) for t in small["threads"]), f["occ"])
+        if small.get("kind") == "churn":
+            f["what"] += " | non-deterministic replay: %d/%d reruns of the round fail; %d round(s) with this key" % (k, RERUNS, f["occ"])
+        else:
+            f["what"] += " | non-deterministic replay: %d/%d reruns of the (minimised: %d threads, <= %d ops) round fail; %d round(s) with this key" % (
+                k, RERUNS, len(small["threads"]), max(len(t["ops"]) for t in small["threads"]), f["occ"])
     # the recorded histories against the Coq model
-    pick = [g for g in good if g[1].get("events")]
+    pick = [g for g in good if g[1].get("events") and g[0].get("kind") != "churn"]
     ctx.rng.shuffle(pick)
     pick.sort(key=lambda g: -len(g[0]["threads"]))
-    n, steps, bad = model_replay(ctx, pick[:coq_sample]) if pick else (0, 0, [])
+    cpick = [g for g in good if g[1].get("events") and g[0].get("kind") == "churn"]
+    ctx.rng.shuffle(cpick)
+    cpick = cpick[:max(1, coq_sample // 3)]     # the recorded prefix of some churn rounds as well
+    pick = pick[:max(0, coq_sample - len(cpick))] + cpick
+    st["coq_churn_traces"] = len(cpick)
+    n, steps, bad = model_replay(ctx, pick) if pick else (0, 0, [])
     st["coq_traces"], st["coq_steps"] = n, steps
     st["coq_not_run"] = sum(1 for key, _, _ in bad if key == "model-run-failed")
     for key, what, case in bad:
@@ -507,6 +757,13 @@ def evaluate(ctx, cases, first_use_cases, coq_sample=24, do_minimise=True):
             continue    # infrastructure (reported through `broken` when nothing at all could be replayed)
         failures.append({"key": key, "what": what, "replay": {"round": strip(case) if case else None}})
     return failures, st
+
+
+def make_extra(ctx, nstate, nchurn, churn_iters, churn_ms, max_threads):
+    rng = ctx.rng
+    state = [gen_state_round(rng, "s%d" % i, min(max_threads, rng.choice([2, 4, 4, 8, 8, 8, 12])), rng.randint(8, 14)) for i in range(nstate)]
+    churn = [gen_churn(rng, "k%d" % i, churn_iters, churn_ms) for i in range(nchurn)]
+    return state, churn
 
 
 def make_cases(ctx, nrounds, nfirst, max_threads, nops):
@@ -528,14 +785,18 @@ def make_cases(ctx, nrounds, nfirst, max_threads, nops):
 
 def correspond(ctx):
     cases, first, corpus_ids = make_cases(ctx, ctx.n(160, 3000), ctx.n(16, 320), ctx.n(8, 16), ctx.n(8, 16))
-    ctx.log("generated %d rounds + %d first-use rounds (fresh process each)" % (len(cases), len(first)))
-    failures, st = evaluate(ctx, cases, first, coq_sample=ctx.n(6, 96))
+    state, churn = make_extra(ctx, ctx.n(24, 400), ctx.n(12, 80), ctx.n(150000, 600000), ctx.n(8000, 30000), ctx.n(12, 16))
+    ctx.log("generated %d rounds + %d first-use rounds (fresh process each) + %d per-thread-state rounds + %d churn rounds"
+            % (len(cases), len(first), len(state), len(churn)))
+    failures, st = evaluate(ctx, cases, first, coq_sample=ctx.n(6, 96), state_cases=state, churn_cases=churn)
     ctx.log("rounds=%d threads/round=%s ops=%d transcript items=%d cross-thread drops=%d first-use races=%d nontrivial=%d "
-            "skipped(setup)=%d too-expensive=%d not-run=%d coq traces=%d (%d steps) failures=%d"
+            "skipped(setup)=%d too-expensive=%d not-run=%d coq traces=%d (%d steps, %d churn prefixes) failures=%d | state rounds=%d (ops=%d "
+            "items=%d) | churn rounds=%d heaps built+checked+dropped elsewhere=%d styles=%s"
             % (st["rounds"], dict(sorted(st["threads"].items())), st["ops"], st["items"], st["xdrops"], st["first_use"], st["nontrivial"],
-               st["skipped_setup"], st.get("slow_skipped", 0), st["not_run"], st["coq_traces"], st["coq_steps"], len(failures)))
+               st["skipped_setup"], st.get("slow_skipped", 0), st["not_run"], st["coq_traces"], st["coq_steps"], st.get("coq_churn_traces", 0),
+               len(failures), st["state_rounds"], st["state_ops"], st["state_items"], st["churn_rounds"], st["churn_heaps"], st["churn_styles"]))
     broken = []
-    total = len(cases) + len(first)
+    total = len(cases) + len(first) + len(state) + len(churn)
     if st["skipped_setup"] > total // 4 or st["rounds"] < total // 2:
         broken.append(("stress-harness", "only %d of %d rounds ran (%d setup errors: %s)" % (st["rounds"], total, st["skipped_setup"],
                                                                                            st.get("setup_errors", [])[:2])))
@@ -547,13 +808,24 @@ def correspond(ctx):
         "distinct_nontrivial": st["nontrivial"],
         "rule": "rounds of generated per-thread workloads (tools/gen/progs.py programs importing shared frozen modules + struct/record/enum/"
                 "big-int/closure/string uses + build/freeze/drop of own modules + owned handles), each workload run concurrently and alone; "
-                "evaluations = operations executed (concurrent + sequential); non-trivial = rounds with >= 4 threads that share >= 1 frozen "
-                "module and perform >= 1 cross-thread drop",
+                "+ per-thread-state rounds (deep nested ==/</sorted/in/dict keys, repr/str/json of deep and self-referential values, Starlark "
+                "recursion near the call-stack limit, interning/hash caches, record/enum type ids; sequential before AND after the concurrent "
+                "phase) + churn rounds (producers build tiny frozen heaps/modules back to back, consumers on other threads compare the value "
+                "with the expected encoding and drop it); evaluations = operations executed (concurrent + sequential; one churn heap = one "
+                "operation); non-trivial = rounds with >= 4 threads that share >= 1 frozen module and perform >= 1 cross-thread drop, state "
+                "rounds with >= 4 threads, churn rounds with >= 3 threads and >= 10000 heaps",
         "rounds": st["rounds"],
         "threads_per_round": {str(k): v for k, v in sorted(st["threads"].items())},
         "ops_per_workload_mean": round(st["ops"] / max(1, sum(k * v for k, v in st["threads"].items())), 2),
         "transcript_items_compared": st["items"],
         "cross_thread_drops": st["xdrops"],
+        "state_rounds": st["state_rounds"],
+        "state_ops": st["state_ops"],
+        "state_transcript_items": st["state_items"],
+        "churn_rounds": st["churn_rounds"],
+        "churn_heaps_built_checked_dropped_on_other_threads": st["churn_heaps"],
+        "churn_styles": st["churn_styles"],
+        "churn_prefixes_replayed_on_model": st.get("coq_churn_traces", 0),
         "first_use_races_exercised": st["first_use"],
         "rounds_skipped_setup_error": st["skipped_setup"],
         "rounds_not_run_after_crash": st["not_run"],
@@ -578,9 +850,10 @@ def search(ctx, broken):
     ctx.tier = "thorough"
     try:
         cases, first, _ = make_cases(ctx, 600, 64, 16, 14)
+        state, churn = make_extra(ctx, 120, 40, 400000, 20000, 16)
     finally:
         ctx.tier = old
-    failures, st = evaluate(ctx, cases, first, coq_sample=8)
+    failures, st = evaluate(ctx, cases, first, coq_sample=8, state_cases=state, churn_cases=churn)
     return {"failures": failures, "coverage": {"evaluations": st["ops"] * 2, "rounds": st["rounds"]}}
 
 
@@ -612,12 +885,17 @@ META = {
                   "without holder and every read by a holder hits live memory; nothing leaks at quiescence; all observers of a once-cell see "
                   "the same value under every interleaving of racing initialisers; no step writes frozen memory, frozen reads commute with "
                   "every step and private steps of different threads commute; every thread's observations in any concurrent run equal those "
-                  "of its own operations run alone. An example shows that a drop without matching holder breaks the invariant. "
+                  "of its own operations run alone. Examples show that a drop without matching holder breaks the invariant, and that the ATOMICITY of "
+                  "the decrement is load-bearing: a decrement split into load and store is the atomic drop when the halves are adjacent "
+                  "(theorem, all states), but one clone by another thread between them breaks count = holders and a later drop frees the "
+                  "chunk under a live holder. "
                   "What is NOT proved: that the Rust code implements these protocols, and anything the Rust/hardware memory model adds to "
                   "interleaving semantics (atomics orderings, torn reads, data races), nor the OS scheduler. For the real code the property "
                   "is only SEARCHED: generated workloads on 2..16 threads sharing frozen modules (loads, calls, reads, hashing, repr/json, "
                   "build/freeze/drop of own modules, handles and modules dropped on other threads, first-use races on lazily initialised "
-                  "globals in fresh processes), arena poisoning on, each thread's transcript compared with the same workload run alone; the "
+                  "globals in fresh processes; deep nested comparison / repr / json / recursion / interning / type-id workloads on shared frozen "
+                  "values with the sequential run before and after; producer/consumer churn of tiny frozen heaps that share chunks, each value "
+                  "compared with its expected encoding), arena poisoning on, each thread's transcript compared with the same workload run alone; the "
                   "recorded heap-level histories of a sample of rounds are replayed on the Coq model. Absence of a failure in this search is "
                   "not evidence of absence.",
     "level_note": "Trusted: Coq kernel; Conc/Model.v as a faithful abstraction of chunk.rs/per_thread.rs/heap_type.rs/def.rs/globals.rs/methods.rs "
